@@ -39,9 +39,9 @@ func plans(tier string, lOverride int) []plan {
 		}
 		return false
 	})
-	lf, li, lia, lir, ls := 4, 3, 3, 4, 3
+	lf, li, lia, lir, ls, lm := 4, 3, 3, 4, 3, 4
 	if tier == "thorough" {
-		li, lir = 4, 5
+		li, lir, lm = 4, 5, 5
 	}
 	if lOverride > 0 {
 		lf = lOverride
@@ -61,6 +61,8 @@ func plans(tier string, lOverride int) []plan {
 		plan{Name: "incremental (cache.BugCache, snapshot forced before the appends), API-expressible alphabet", Mode: "incremental", Alphabet: inc, L: li},
 		plan{Name: "incremental, snapshot forced after every position", Mode: "incremental", Alphabet: inc, L: lia, ForceAll: true},
 		plan{Name: "incremental, reduced API-expressible alphabet, deeper", Mode: "incremental", Alphabet: redInc, L: lir},
+		plan{Name: "metadata values {\"\",v1,v2} x keys {k1,k2} x targets {create, comment, comment carrying k1 itself}: full compile, then commit and reload", Mode: "reload", Alphabet: MetaAlphabet(), L: lm},
+		plan{Name: "metadata values: incremental (cache.BugCache), snapshot forced after every position", Mode: "incremental", Alphabet: MetaAlphabet(), L: lm, ForceAll: true},
 	)
 	return ps
 }
@@ -209,6 +211,12 @@ func (x *explorer) visit(seq []Sym, l *local) {
 			if e.MetaRefused > 0 {
 				l.exercised["sequences where later metadata must not override an existing key"]++
 			}
+			if e.MetaEmptyKept > 0 {
+				l.exercised["sequences where a key holding the empty value must keep it against a later set-metadata"]++
+			}
+			if e.MetaEmptySet > 0 {
+				l.exercised["sequences where set-metadata attaches the empty value to a new key"]++
+			}
 			if e.MetaSet > 0 {
 				l.exercised["sequences where metadata is added to an earlier operation"]++
 			}
@@ -320,7 +328,7 @@ func Reproductions(env *Env, c Case, oracle, sig string, n int) int {
 }
 
 var assumptions = []string{
-	"every case is executed on the real git-bug code (bug.Create, the exported convenience constructors, Bug.Compile, cache.BugCache) in memory; no git storage is involved, so (de)serialisation is outside this check (C04)",
+	"every case is executed on the real git-bug code (bug.Create, the exported convenience constructors, Bug.Compile, cache.BugCache) in memory; only the metadata-value run also commits the bug to an in-memory repository (repository.NewMockRepo) and reads it back with bug.ReadWithResolver; git storage proper and the other (de)serialisation questions are C04",
 	"the reference interpreter reads the plain data fields of the real operation objects (type, author, texts, files, targets, label lists, metadata maps) and operation ids; it never calls Apply",
 	"entity.CombineIds is trusted to map (bug id, operation id) to the ids shown on comments and timeline entries (C13)",
 	"bounded: alphabets and lengths as listed per run; 'long random sequences' of the quantifier are replaced by completeness up to the bound, nothing is sampled",
